@@ -221,7 +221,21 @@ def body_general(case):
     want2 = psi_ref(vals2)
     G = want.reshape(-1, case['m']).T @ want2.reshape(-1, case['m2'])
     close(np.asarray(g), G, 1e-11, 1.0 + np.max(np.abs(G)), 'gram_value', 'gram(x1, x2)')
-    return general_labels(case)
+    lab = general_labels(case)
+    if x.flags.writeable and x.dtype.kind == 'f' and case['seed'] % 2 == 0:
+        # the next batch is written into the same data array (and the same function objects are used again): the constructions
+        # describe the data the array holds now
+        x *= -0.5
+        vals3 = [np.array([[ref_value(s, x[:, j]) for j in range(case['m'])] for s in f]) for f in case['phi']]
+        want3 = psi_ref(vals3)
+        t3 = tdt.basis_decomposition(x, phi)
+        close(dense.contract(t3.cores).reshape(n + [case['m']]), want3, 1e-12, 1.0 + np.max(np.abs(want3)), 'psi_value',
+              'basis_decomposition after the data array was overwritten in place')
+        g3 = tdt.gram(x, x, phi)
+        G3 = want3.reshape(-1, case['m']).T @ want3.reshape(-1, case['m'])
+        close(np.asarray(g3), G3, 1e-11, 1.0 + np.max(np.abs(G3)), 'gram_value', 'gram after the data array was overwritten in place')
+        lab.add('data_overwritten_in_place')
+    return lab
 
 
 # ---------------------------------------------------------------------------------------------------------
